@@ -4,7 +4,7 @@
 From Coq Require Import Lia.
 From AV Require Import Base.Util Model.Consumer Proofs.ConsumerBase Proofs.ConsumerFrame Proofs.ConsumerStop Proofs.ConsumerShut
   Proofs.ConsumerInv Proofs.ConsumerRun Proofs.ConsumerFuel Proofs.ConsumerFuelEnoughStop Proofs.ConsumerFuelEnough
-  Proofs.ConsumerFuelEnoughLoop Proofs.ConsumerNotStarted Proofs.ConsumerLimit.
+  Proofs.ConsumerFuelEnoughLoop Proofs.ConsumerNotStarted Proofs.ConsumerLimit Proofs.ConsumerShutInvNC.
 Open Scope Z_scope.
 
 Lemma step_cf fuel s e s' o : step fuel s e = (s', o) -> fuel_ok o = true -> s_cf s' = s_cf s.
@@ -66,4 +66,6 @@ Proof.
   apply with_enough. intros fuel H.
   apply limit_run_holds; [apply reach_init | apply LI_zero; apply (proj1 (Jtop_init n0 c buf)) | exact H].
 Qed.
+Theorem commit_idle_all : exists fuel0, forall fuel, (fuel0 <= fuel)%nat -> commit_idle_run (tr fuel) = true.
+Proof. apply with_enough. intros fuel H. apply commit_idle_run_holds; [reflexivity | exact H]. Qed.
 End NoHyp.
